@@ -109,6 +109,52 @@ def stream_sbridge(ctx: Ctx):
                     return f"(VMAtom {atom_clause(r.op, r.value)})"
                 cases.append((f"BMerge {coqrun.cbool(kind)} {VN[name]} {k1} {k2} {sparse._res(lambda: merge(m1, m2, cls), rnd)}",
                               f"merge: {m1} {'&' if kind else '|'} {m2}"))
+    # -- the python_version / python_full_version pair branch: _normalize_python_version_specifier and _merge_python_version_single_markers
+    pv_atoms = []
+    for op in OPS:
+        for lit in ["3", "3.6", "3.7", "3.10", "2.7", "3.8.0", "3.8.0.0", "3.8.1", "3.0", "3.0.0"] + (["3.*", "3.8.*"] if op in ("==", "!=") else []):
+            if op == "~=" and "." not in lit:
+                continue
+            if "*" in lit and op not in ("==", "!="):
+                continue
+            try:
+                pv_atoms.append((MarkerExpression("python_version", op, lit), atom_clause(op, lit)))
+            except Exception:  # noqa: BLE001
+                continue
+    for m, k in pv_atoms:
+        cases.append((f"BNormPV {k} {sparse._res(lambda m=m: S._normalize_python_version_specifier(m), sparse.cspec_s)}", f"normalize: {m}"))
+    full_atoms = []
+    for op in OPS:
+        for lit in ["3.6", "3.7.0", "3.7.1", "3.8", "3.10.2", "3", "3.9a1"] + (["3.7.*"] if op in ("==", "!=") else []):
+            if op == "~=" and "." not in lit:
+                continue
+            if "*" in lit and op not in ("==", "!="):
+                continue
+            try:
+                full_atoms.append((MarkerExpression("python_full_version", op, lit), atom_clause(op, lit)))
+            except Exception:  # noqa: BLE001
+                continue
+    pairs = [(a, b) for a in pv_atoms for b in full_atoms]
+    rng.shuffle(pairs)
+    for (m1, k1), (m2, k2) in pairs[:250]:
+        for kind, cls in ((True, MultiMarker), (False, MarkerUnion)):
+            for swap in (False, True):
+                a, b = (m2, m1) if swap else (m1, m2)
+
+                def rnd(r, m1=m1):
+                    if r is None:
+                        return "VMNone"
+                    if r is m1:
+                        return "VMFirst"
+                    if isinstance(r, AnyMarker):
+                        return "VMAny"
+                    if isinstance(r, EmptyMarker):
+                        return "VMEmpty"
+                    if r.name != "python_full_version":
+                        return "VMSecond"       # never expected: a guaranteed mismatch
+                    return f"(VMAtom {atom_clause(r.op, r.value)})"
+                cases.append((f"BMergePV {coqrun.cbool(kind)} {k1} {k2} {sparse._res(lambda a=a, b=b: merge(a, b, cls), rnd)}",
+                              f"merge-pv: {a} {'&' if kind else '|'} {b}"))
     terms = [c[0] for c in cases]
     total, bad, errs = coqrun.eval_cases(terms, f"{ctx.prop}-sbridge", mod="Corr SpecParse CorrParse Bridge", casety="bcase", runner="run_bcases", shard=400, timeout=300)
     ctx.count("S-bridge", total)
